@@ -23,6 +23,26 @@ CHECKS = {
     note='Python call stack modelled as a worklist machine; non-returning histories (RecursionError) excluded by '
          'hypothesis; callback identity = function identity; correspondence is sampled (random histories), not exhaustive.',
     technique='Coq proof (invariant over worklist machine, history-based spec) + scripted-history correspondence'),
+ 'C13': dict(
+    text='Coq theorems over an exact (integer-microsecond) model of utils.serialize_date/parse_date on top of a calendar '
+         'bijection proved for ALL ordinals: date-time -> serial -> date-time for every date-time from 1900-01-01, strict '
+         'monotonicity, serial = days since 1899-12-30 + fraction from 1 March 1900, serial -> date -> serial for every '
+         'serial >= 61, date+n = n days later, date-date = time between. Tied to the code by a per-day correspondence '
+         '(every day 1900..9999 in the thorough tier), millisecond date-times and formulas through Parser.parse.',
+    design='7/C13',
+    note='ideal arithmetic: the implementation works in float milliseconds; whole-day serials are compared exactly, '
+         'sub-day ones to 0.5 ms (the property says "to the millisecond"); CPython datetime transcribed and swept.',
+    technique='Coq proof (calendar cycle sweep lifted by periodicity, case analysis + lia) + per-day model/implementation correspondence'),
+ 'C14': dict(
+    text='Coq theorems over Model/DateFns.v for every valid date and every integer offset: DATE/TIME components, whole-day '
+         'serial components = calendar date of the ordinal, WEEKDAY numberings/#NUM!, DATEDIF m/y/ym against a declarative '
+         'whole-months/years spec, EDATE = month-index arithmetic with clamp and #NUM! outside 1900..9999; DAYS/DATEDIF-d = '
+         'ordinal difference is proved outside the 1900 phantom-day window and refuted inside it (recorded known finding). '
+         'Tied to dateandtime.py by correspondence on days, pairs, offsets, serials and an oracle through Parser.parse.',
+    design='7/C14',
+    note='partial for DAYS/DATEDIF-d: 1 known finding (pairs straddling 1900-03-01 or touching 1900-01-01T00:00); ISO text goes '
+         'through dateutil and is checked by the oracle only; arguments are ints/datetimes.',
+    technique='Coq proof (lia with div/mod, calendar lemmas; _refuted witness by vm_compute) + correspondence + oracle'),
 }
 PENDING = {}
 def main():
